@@ -12,7 +12,11 @@ pub mod models;
 pub mod spec_blake;
 #[macro_use]
 pub mod hmacros;
+#[path = "../spec/blake_core.rs"]
+pub mod spec_blake_core;
+pub mod blake_core;
 pub mod blake_mode;
 pub mod groestl_mode;
 pub mod jh_mode;
+pub mod jh_core;
 pub mod skein_mode;
